@@ -452,10 +452,55 @@ func propC17Registry(col *evid.Collector, maxSteps int) func(rt *rapid.T) {
 				doAddReg(kit.Reg{ID: nextID, Life: kit.Scoped, Form: kit.FormVoid}, false)
 			}
 		}
+		// a group grows while something else is replaced: member, Remove of an unrelated plain
+		// registration, next member of the same group (the collection is as large at the second
+		// Add as it was at the first)
+		doGroupAroundRemove := func() {
+			ty := rapid.SampledFrom(c17Types).Draw(rt, "garType")
+			grp := rapid.SampledFrom([]string{"g", "h"}).Draw(rt, "garGroup")
+			life := rapid.IntRange(0, 2).Draw(rt, "garLife")
+			member := func() {
+				impl := ty
+				if kit.IsIface(impl) {
+					impl = rapid.SampledFrom([]int{0, kit.NumD}).Draw(rt, "garImpl")
+				}
+				doAddReg(kit.Reg{ID: nextID, Life: life, Form: kit.FormPlain, Outs: []kit.OutSpec{{T: ty, Impl: impl}}, Group: grp}, false)
+			}
+			var cands []refDesc
+			for _, d := range ref.descs {
+				reg := ref.regs[d.Reg]
+				if d.Void || d.Ident.Group != "" || d.Ident.Key != "" || reg == nil || len(reg.AllProvides()) != 1 {
+					continue
+				}
+				ambiguous := false
+				for _, o := range ref.descs {
+					if !o.Void && o.Ident.T == d.Ident.T && (o.Ident.Key != "" || o.Ident.Group != "" || o.Ident.T == ty) {
+						ambiguous = true
+					}
+				}
+				if !ambiguous && d.Ident.T != ty {
+					cands = append(cands, d)
+				}
+			}
+			member()
+			if f != nil || len(cands) == 0 {
+				return
+			}
+			d := rapid.SampledFrom(cands).Draw(rt, "garRemoved")
+			coll.Remove(kit.RType(d.Ident.T))
+			ref.remove(d.Ident)
+			removed = true
+			steps = append(steps, fmt.Sprintf("remove(%s)", d.Ident))
+			member()
+		}
 		nsteps := rapid.IntRange(1, maxSteps).Draw(rt, "nsteps")
 		for i := 0; i < nsteps && f == nil; i++ {
 			if rapid.IntRange(0, 9).Draw(rt, "replace") == 0 {
 				doReplace()
+				continue
+			}
+			if rapid.IntRange(0, 11).Draw(rt, "groupAroundRemove") == 0 {
+				doGroupAroundRemove()
 				continue
 			}
 			if rapid.IntRange(0, 14).Draw(rt, "shadowGenerated") == 0 {
